@@ -439,7 +439,7 @@ Fixpoint irun (fuel : nat) (t : itask) (s : ist) {struct fuel} : ires :=
           | _ :: rl =>
               let s5 := upd_rules s4 rl in
               if negb m then IOk false s5 []
-              else if r_silent r then IOk true s5 kids
+              else if r_silent r then IOk true s5 (if hides r then vis kids else kids)
               else
                 let tg := match i_tags s5 with t0 :: _ => Some t0 | [] => None end in
                 let s6 := upd_tags s5 (tl (i_tags s5)) in
